@@ -193,6 +193,32 @@ class Repo:
         except KeyError:
             raise AnchorMissing(f'function {qualname} not found') from None
 
+    def func_with_private_methods_inlined(self, qualname: str) -> FunctionInfo:
+        """The method `qualname` with calls of private helper methods of its class (`self._m(...)`, see
+        fsa/inline.py) replaced by their bodies - on a private copy of the class; the ordinary view is unchanged."""
+        import copy
+        from .inline import _inline_methods_in_class
+        fi = self.func(qualname)
+        if fi.cls is None or fi.parent is not None:
+            return fi
+        cache = getattr(self, '_inlined_classes', None)
+        if cache is None:
+            cache = self._inlined_classes = {}
+        if fi.cls.qualname not in cache:
+            c2 = copy.deepcopy(fi.cls.node)
+            n = _inline_methods_in_class(c2)
+            cache[fi.cls.qualname] = (c2, n)
+        c2, n = cache[fi.cls.qualname]
+        if not n:
+            return fi
+        want_setter = qualname.endswith('.setter')
+        for m in c2.body:
+            if isinstance(m, ast.FunctionDef) and m.name == fi.name:
+                is_setter = any(isinstance(d, ast.Attribute) and d.attr == 'setter' for d in m.decorator_list)
+                if is_setter == want_setter:
+                    return FunctionInfo(qualname=fi.qualname, name=fi.name, module=fi.module, node=m, cls=fi.cls, parent=None)
+        return fi
+
     def has_func(self, qualname: str) -> bool:
         return qualname in self.functions
 
